@@ -755,6 +755,12 @@ impl<P, T> PrefixMap<P, T>
 where
     P: Prefix,
 {
+    /// The free list, for the verification hooks only.
+    #[cfg(feature = "verif-hooks")]
+    pub(crate) fn verif_free(&self) -> &[usize] {
+        &self.free
+    }
+
     /// remove all elements from that point onwards.
     fn _do_remove_children(&mut self, idx: usize, right: bool) {
         let mut to_free = vec![self.table.get_child(idx, right).unwrap()];
